@@ -39,6 +39,7 @@ func checkCiscoConv(p *Prog, r *Report, prop, flavour string) {
 	ruleExitsAudited(p, r, "R-X", prop, pk, 16)
 	ruleRegexpConsts(p, r, "R-RX", prop, 1)
 	ruleIdentityFirst(p, r, "R-IDF", prop, 16)
+	ruleFreshTestedAgainstUsed(p, r, "R08.f2")
 	ruleCaseFolding(p, r, "R-FOLD", prop, pk)
 	r.rule("R08.c", "Emission discipline (see C08): every call of the emitting helpers in package cisco is an audited site.")
 	ruleEmitDiscipline(p, r, "R08.c", prop, "cisco", []string{"(*cisco.State).addChange", "(*cisco.State).addToplevel", "(*cisco.State).addCmd", "(*cisco.State).addCmds", "(*cisco.State).delCmds"}, 33)
